@@ -7,7 +7,7 @@ import re
 import sys
 from typing import Any, Dict, Iterable, List, Optional
 
-from harness.core import Case, Check, Finding, call, canon, short
+from harness.core import OUTSIDE, Case, Check, Finding, call, canon, short
 
 RECURSION_LIMIT = 400      # runaway recursion becomes an outcome (RecursionError), not a hang
 
@@ -169,7 +169,9 @@ class C18(Check):
                   'the 2 of max(gap_threshold, 2), min_column_width=0 of the recursive call and the 0 of its guard, the '
                   'threshold reaching is_horizontally_overlapping) are REGENERATED on every run (translate() -> '
                   'Generated/C18.lean); proofs use only the named relations C18_consts_* about them; cases tagged '
-                  'default-thr / mcw None call the real function without the argument and the model follows the source.')
+                  'default-thr / mcw None call the real function without the argument and the model follows the source. '
+                  'Inputs outside the quantifier (zero-size boxes, thresholds outside 1..200, explicit minimum widths) '
+                  'are mirrored as an observation only (tagged outside-quantifier: differences recorded, not judged).')
     assumptions = ['parse_derived_coords: the bounding box of the hull is the union of the input boxes (C09), no '
                    'QhullError since fc690f6 (sampled by the correspondence, also on zero-size boxes)',
                    'float comparison overlap/width > t agrees with overlap*q > p*width (t = p/q the decimal literal of the '
@@ -254,8 +256,15 @@ class C18(Check):
         def mk(lines_or_region, thr=50, mcw=None, rid='r1', parent=None, dx=0, dy=0, tags=(), kind='split'):
             region = lines_or_region if isinstance(lines_or_region, dict) else \
                 {'lines': lines_or_region, 'subs': []}
-            out.append(Case(kind, {'thr': thr, 'mcw': mcw, 'rid': rid, 'parent': parent, 'region': region,
-                                   'dx': dx, 'dy': dy}, list(tags)))
+            inp = {'thr': thr, 'mcw': mcw, 'rid': rid, 'parent': parent, 'region': region, 'dx': dx, 'dy': dy}
+            tags = list(tags)
+            # WAVE 3: the quantifier is "all sets of lines with POSITIVE-SIZE boxes ... gap thresholds 1..200" with the
+            # default minimum column width; zero-size boxes, other thresholds / widths and repeated ids are outside it
+            # (`in_quantifier`, which already keeps the oracle away from them): the model still mirrors the code
+            # there, a difference is recorded in the evidence instead of breaking the correspondence
+            if kind == 'split' and not self.in_quantifier(inp):
+                tags.append(OUTSIDE)
+            out.append(Case(kind, inp, tags))
 
         def ln(i, l, t, r, b, bl=False):
             return {'id': f'l{i}', 'box': [l, t, r, b], 'bl': bl}
